@@ -620,7 +620,10 @@ impl ObjectReceiver {
             return;
         }
 
-        while let Some(item) = self.cache.pop() {
+        // Packets are pushed in the order of their reception,
+        // a packet with the close object flag is the last one
+        let cache = std::mem::take(&mut self.cache);
+        for item in cache {
             let pkt = item.to_pkt();
             if self.push_to_block(&pkt, now).is_err() {
                 self.error("Fail to push block", now, false);
